@@ -20,6 +20,7 @@ func init() {
 	register(&Rule{ID: "UPD-5", Doc: "$pullAll removes by equality: the function registered for $pullAll (with its function literals) selects elements with bsonkit.Compare(...) == 0 and never reaches the query matcher (pullMatches / Match), which would read a listed document as a condition", Run: ruleUpd5})
 	register(&Rule{ID: "REC-2", Doc: "continuations stay in the recursion: a func-typed parameter of a self-recursive function of bsonkit/mongokit (resolve's callback, put's setter) is only called by that function or handed on to its own recursive calls (directly or through a function literal that does so); it is never passed to another function, which would end the expansion of the remaining path early", Run: ruleRec2})
 	register(&Rule{ID: "PANIC-8", Doc: "constant indices are guarded: in package lungo every x[k] with constant k on a slice taken from a transaction Result (Matched, Modified, ...) is dominated by a test that establishes len(x) > k for that same slice", Run: rulePanic8})
+	register(&Rule{ID: "GFS-6", Doc: "Suspend flushes what a flush would write: on every successful path of UploadStream.Suspend (followed into the functions of the package it calls, with constant arguments bound) that does not run upload, the tests on the path establish that upload(false) would have written nothing - the buffer is empty, or it holds less than a chunk and the upload marker already exists (upload inserts the marker of a tracked upload on its first run, and Resume needs it)", Run: ruleGfs6})
 	register(&Rule{ID: "GFS-5", Doc: "a successful seek leaves a cursor behind the data: in DownloadStream.seek, after the old cursor has been dropped (s.cursor = nil), every path to a nil return that leaves a non-nil read buffer also stores a fresh cursor into s.cursor (next() takes a nil cursor for end of file)", Run: ruleGfs5})
 }
 
@@ -983,4 +984,175 @@ func ruleGfs5(c *Ctx, r *Reporter) {
 		r.check(good, "seek:cursor after seek", c.pos(bst.Pos()), "the read buffer is set only after a fresh cursor was stored", "the read buffer is set to data on a path on which s.cursor was dropped (set to nil) and not replaced: next() takes the nil cursor for end of file, so reading stops at the end of this chunk although the file goes on")
 	}
 	r.guard(n, 1, "stores of a non-nil read buffer in DownloadStream.seek")
+}
+
+// ---- GFS-6 -------------------------------------------------------------------------------
+
+func ruleGfs6(c *Ctx, r *Reporter) {
+	fn := c.lookupSSA(pkgLungo, "UploadStream.Suspend")
+	up := c.lookupSSA(pkgLungo, "UploadStream.upload")
+	if fn == nil || up == nil {
+		r.bad("anchor:UploadStream.Suspend/upload", "-", "not found")
+		return
+	}
+	var reaches func(h *ssa.Function, depth int) bool
+	reaches = func(h *ssa.Function, depth int) bool {
+		if h == up {
+			return true
+		}
+		if h == nil || h.Blocks == nil || fnPkgPath(h) != pkgLungo || depth > 2 {
+			return false
+		}
+		found := false
+		allInstrs(h, func(in ssa.Instruction) {
+			if call, ok := in.(*ssa.Call); ok && !found {
+				if g := staticFn(&call.Call); g != nil && g != h && reaches(g, depth+1) {
+					found = true
+				}
+			}
+		})
+		return found
+	}
+	isField := func(v ssa.Value, name string) bool {
+		p, ok := fieldPath(stripIntConv(v))
+		return ok && (p == name || strings.HasSuffix(p, "."+name))
+	}
+	// what the decisions of a path establish
+	justified := func(decs []decision) bool {
+		empty, short, marker := false, false, false
+		for _, d := range decs {
+			bo, ok := d.cond.(*ssa.BinOp)
+			if !ok {
+				continue
+			}
+			op := bo.Op
+			if !d.taken {
+				switch op {
+				case token.GTR:
+					op = token.LEQ
+				case token.GEQ:
+					op = token.LSS
+				case token.LSS:
+					op = token.GEQ
+				case token.LEQ:
+					op = token.GTR
+				case token.EQL:
+					op = token.NEQ
+				case token.NEQ:
+					op = token.EQL
+				}
+			}
+			if isField(bo.X, "bufLen") {
+				if k, isK := constInt(bo.Y); isK {
+					if (op == token.LEQ && k <= 0) || (op == token.EQL && k == 0) || (op == token.LSS && k <= 1) {
+						empty = true
+					}
+				}
+				if isField(bo.Y, "chunkSize") && op == token.LSS {
+					short = true
+				}
+			}
+			if isField(bo.Y, "bufLen") && isField(bo.X, "chunkSize") && op == token.GTR {
+				short = true
+			}
+			if isField(bo.X, "marker") && isNilConst(bo.Y) && op == token.NEQ {
+				marker = true
+			}
+		}
+		return empty || (short && marker)
+	}
+	type pathInfo struct {
+		decs   []decision
+		blocks []*ssa.BasicBlock
+		end    *ssa.BasicBlock
+	}
+	successPaths := func(g *ssa.Function) ([]pathInfo, bool) {
+		paths, ends, trunc := enumPaths(g.Blocks[0], nil, func(b *ssa.BasicBlock) bool {
+			_, isRet := b.Instrs[len(b.Instrs)-1].(*ssa.Return)
+			return isRet
+		}, 4096)
+		if trunc {
+			return nil, false
+		}
+		blocks := enumPathBlocks
+		var out []pathInfo
+		for i := range paths {
+			if ends[i] == nil {
+				continue
+			}
+			ret, ok := ends[i].Instrs[len(ends[i].Instrs)-1].(*ssa.Return)
+			if !ok || len(ret.Results) == 0 || !isNilConst(retVal(ret, len(ret.Results)-1)) {
+				continue
+			}
+			out = append(out, pathInfo{paths[i], append(append([]*ssa.BasicBlock{}, blocks[i]...), ends[i]), ends[i]})
+		}
+		return out, true
+	}
+	// does the path run upload? if it calls a function that may, which one
+	classify := func(p pathInfo) (runs bool, via []*ssa.Call) {
+		for _, b := range p.blocks {
+			for _, in := range b.Instrs {
+				call, ok := in.(*ssa.Call)
+				if !ok {
+					continue
+				}
+				g := staticFn(&call.Call)
+				if g == up {
+					return true, nil
+				}
+				if g != nil && reaches(g, 0) {
+					via = append(via, call)
+				}
+			}
+		}
+		return false, via
+	}
+	var check func(g *ssa.Function, outer []decision, bind map[ssa.Value]bool, depth int) string
+	check = func(g *ssa.Function, outer []decision, bind map[ssa.Value]bool, depth int) string {
+		paths, ok := successPaths(g)
+		if !ok {
+			return "too many paths in " + funcName(g)
+		}
+		for _, p := range paths {
+			// paths that contradict the constant arguments do not exist for this call
+			feasible := true
+			for _, d := range p.decs {
+				if want, bound := bind[d.cond]; bound && want != d.taken {
+					feasible = false
+				}
+			}
+			if !feasible {
+				continue
+			}
+			runs, via := classify(p)
+			if runs {
+				continue
+			}
+			all := append(append([]decision{}, outer...), p.decs...)
+			if len(via) == 0 {
+				if !justified(all) {
+					return fmt.Sprintf("a successful path through %s (to %s) neither runs upload nor establishes that there is nothing to write", funcName(g), c.pos(p.end.Instrs[len(p.end.Instrs)-1].Pos()))
+				}
+				continue
+			}
+			if depth >= 2 {
+				return "upload is reached through more than two levels of helpers"
+			}
+			for _, call := range via {
+				h := staticFn(&call.Call)
+				b2 := map[ssa.Value]bool{}
+				for i, a := range call.Call.Args {
+					if v, isConst := constBool(a); isConst && i < len(h.Params) {
+						b2[h.Params[i]] = v
+					}
+				}
+				if why := check(h, all, b2, depth+1); why != "" {
+					return why
+				}
+			}
+		}
+		return ""
+	}
+	why := check(fn, nil, map[ssa.Value]bool{}, 0)
+	r.check(why == "", "Suspend:flushes what upload(false) would write", c.pos(fn.Pos()), "every successful path runs upload or has established an empty buffer (or a partial one with the marker present)", why+": a tracked upload suspended with a partial first chunk has no marker, and Resume fails")
 }
